@@ -45,6 +45,7 @@ def _case(draw, tier):
         st.tuples(st.just("finish"), st.integers(0, 9), st.sampled_from(["ok", "ok", "ok", "exit", "timeout", "oom", "node_fail"])),
         st.tuples(st.just("finish"), st.integers(0, 9), st.just("ok")),
         st.tuples(st.just("cancel"), st.integers(0, 9)),
+        st.tuples(st.just("purge"), st.integers(0, 9)),
         st.tuples(st.just("modify"), st.integers(0, 9)),
         st.tuples(st.just("delete"), st.integers(0, 9)),
     )
@@ -60,6 +61,27 @@ def _case(draw, tier):
 
 def strategy(tier):
     return _case(tier)
+
+
+CHAIN3 = {"targets": [{"name": "A", "inputs": ["s"], "outputs": ["a"], "spec": "echo A\n", "wd": None},
+                      {"name": "D", "inputs": ["s"], "outputs": ["d"], "spec": "echo D\n", "wd": None},
+                      {"name": "T", "inputs": ["a", "d"], "outputs": ["t"], "spec": "echo T\n", "wd": None}],
+          "files": {"s": 1, "a": None, "d": None, "t": None}}
+
+
+def enumerate_cases(tier):
+    """Prerequisites from an earlier invocation with history in between: one of the earlier jobs finished (and was
+    possibly purged by the scheduler), another is still pending or running when the dependent is submitted."""
+    for b in ("slurm", "sge", "lsf"):
+        for purge in (False, True):
+            for running in (False, True):
+                steps = [["run", ["A", "D"]], ["start", 0], ["finish", 0, "ok"]]
+                if purge:
+                    steps.append(["purge", 0])
+                if running:
+                    steps.append(["start", 0])
+                steps.append(["run", []])
+                yield {"desc": CHAIN3, "backend": b, "steps": steps, "drain": [[1, "ok"], [0, "ok"], [0, "ok"], [0, "ok"]]}
 
 
 def _local_extra():
@@ -123,10 +145,16 @@ def run_case(case):
             requested = model.match_names(names, pats) if pats else R.endpoints()
             _, subs = S.plan(requested)
             want = dict(subs)
+            n_before = len(sim.submissions())
             r, new = S.run(pats)
             if r.code != 0 or r.crashed:
                 viols.append(Violation({"kind": "run-failed"}, r.brief()))
                 return
+            extra = sorted(j.name for j in new if j.name not in want)
+            if extra:
+                viols.append(Violation({"kind": "in-flight-or-complete-target-resubmitted", "backend": flavour},
+                                       f"run submitted {extra}, which the scheduler's own job states say are in flight or complete "
+                                       f"(vector {S.vector()})"))
             for j in new:
                 invocation[j.id] = run_no
                 ids, problems = hist.dep_ids(flavour, j)
@@ -134,7 +162,10 @@ def run_case(case):
                     viols.append(Violation({"kind": "dependency-syntax", "backend": flavour}, f"{j.name}: {p}"))
                 exp = set()
                 for d in want.get(j.name, ()):
-                    cands = [x for x in sim.submissions() if x.name == d and x.order < j.order]
+                    # a prerequisite the model re-submits in this run is its new job; otherwise the job that was
+                    # already in flight before this invocation
+                    limit = j.order if d in want else n_before
+                    cands = [x for x in sim.submissions() if x.name == d and x.order < limit]
                     if cands:
                         exp.add(max(cands, key=lambda x: x.order).id)
                     else:
@@ -178,6 +209,12 @@ def run_case(case):
                     sim.cancel(c[step[1] % len(c)].id, by="admin")
                     labels.add("cancel")
                     sim.kill_never_satisfied()
+            elif op == "purge":
+                # the scheduler forgets a job that ended long ago
+                c = [j for j in sim.submissions() if j.ended and (j.in_queue or j.in_acct)]
+                if c:
+                    sim.age_out(c[step[1] % len(c)].id, queue=True, acct=True)
+                    labels.add("purged-job")
             elif op in ("modify", "delete"):
                 R = S.refresh()
                 if op == "modify":
